@@ -18,7 +18,8 @@
    signing key"; limits as exact script length and conservative static bounds).  The last
    conjunct is checked on the implementation's own parser in every run (harness). *)
 From Coq Require Import List Bool NArith Permutation.
-From Verif Require Import PolicyVal PolicyValProofs PolicyValWorlds PolicyValidator PolicyValEntry PolicyValSat.
+From Verif Require Import PolicyVal PolicyValProofs PolicyValWorlds PolicyValidator PolicyValEntry PolicyValSat
+  PolicyValSigned PolicyValSpend.
 Import ListNotations.
 Local Open Scope N_scope.
 
@@ -129,6 +130,28 @@ Theorem C08_dissat_table : forall ke A W m t,
   all_dsat ke A m <> [].
 Proof. exact dissat_table. Qed.
 Print Assumptions C08_dissat_table.
+
+(* the type label `s` means what the property says: a fragment typed `s` is not satisfiable, as a
+   policy, by a world in which none of its keys signs *)
+Theorem C08_signed_sound : forall W m t,
+  type_of m = ROk t -> kpos m -> m_signed (t_mall t) = true ->
+  evals W (lift_ms m) = true -> exists k, In k (keys_s (lift_ms m)) /\ w_key W k = true.
+Proof. exact signed_sound. Qed.
+Print Assumptions C08_signed_sound.
+
+(* down to script execution, direction "compilation never takes spending ability away":
+   accepted validation + policy true in W  ==>  a witness from W's assets is accepted by the
+   Script semantics on the encoded output.  PARTIAL: outputs without multisig leaves (the
+   fragments Theorem A covers), under Theorem A's hypotheses on number encodings / genuine assets;
+   the converse (accepted witness ==> policy true) needs Theorem B and is not proved. *)
+Theorem C08_validated_policy_spendable_partial : forall e ke A W c kk pol m att,
+  validate_compilation c kk pol m att = true ->
+  num_hyps -> TheoremA.assets_ok e ke A -> assets_match A W -> (forall ks, Permutation (ksort ke ks) ks) ->
+  TheoremA.wf e ke m -> TheoremA.no_multi m ->
+  evalc W pol = true ->
+  exists w, In w (all_sat ke A m) /\ Exec.accepts e (enc ke m) w = true.
+Proof. exact validated_policy_spendable. Qed.
+Print Assumptions C08_validated_policy_spendable_partial.
 
 (* ---- non-vacuity: concrete accepted and rejected validations
    ex_pol = or(9@pk(0),1@and(pk(1),older(144))), ex_ms = or_d(pk(0),and_v(v:pkh(1),older(144))),
